@@ -219,8 +219,8 @@ Lemma read_step_frame_inv maxsize p f tail :
 Proof.
   unfold read_step. intros H.
   destruct (blen p <? 8) eqn:E1; [discriminate|].
-  destruct ((0 <? maxsize) && (maxsize <? frame_len p)) eqn:E2; [discriminate|].
   destruct (frame_len p <? 8) eqn:E3; [discriminate|].
+  destruct ((0 <? maxsize) && (maxsize <? frame_len p)) eqn:E2; [discriminate|].
   destruct (blen p <? frame_len p) eqn:E4; [discriminate|].
   inversion H; subst. split; [now rewrite firstn_skipn|].
   unfold blen in *. rewrite firstn_length. lia.
@@ -233,8 +233,8 @@ Proof.
   unfold read_step in *.
   destruct (blen p <? 8) eqn:E1; [discriminate|].
   rewrite frame_len_app by lia.
-  destruct ((0 <? maxsize) && (maxsize <? frame_len p)) eqn:E2; [discriminate|].
   destruct (frame_len p <? 8) eqn:E3; [discriminate|].
+  destruct ((0 <? maxsize) && (maxsize <? frame_len p)) eqn:E2; [discriminate|].
   destruct (blen p <? frame_len p) eqn:E4; [discriminate|].
   rewrite blen_app. pose proof (blen_nonneg c).
   destruct (blen p + blen c <? 8) eqn:E5; [lia|].
@@ -253,8 +253,8 @@ Proof.
   destruct (blen p <? 8) eqn:E1; [destruct H; discriminate|].
   rewrite frame_len_app by lia. rewrite blen_app. pose proof (blen_nonneg c).
   destruct (blen p + blen c <? 8) eqn:E5; [lia|].
-  destruct ((0 <? maxsize) && (maxsize <? frame_len p)) eqn:E2; [reflexivity|].
   destruct (frame_len p <? 8) eqn:E3; [reflexivity|].
+  destruct ((0 <? maxsize) && (maxsize <? frame_len p)) eqn:E2; [reflexivity|].
   destruct (blen p <? frame_len p) eqn:E4; destruct H; discriminate.
 Qed.
 
@@ -345,8 +345,8 @@ Proof.
   rewrite frame_len_app by lia. rewrite blen_app. pose proof (blen_nonneg rest).
   destruct (blen f + blen rest <? 8) eqn:E1; [lia|].
   rewrite Hl.
-  destruct ((0 <? maxsize) && (maxsize <? blen f)) eqn:E2; [lia|].
   destruct (blen f <? 8) eqn:E3; [lia|].
+  destruct ((0 <? maxsize) && (maxsize <? blen f)) eqn:E2; [lia|].
   destruct (blen f + blen rest <? blen f) eqn:E4; [lia|].
   unfold blen. rewrite Nat2Z.id. rewrite firstn_app, skipn_app, Nat.sub_diag, firstn_all, skipn_all.
   cbn [firstn skipn app]. now rewrite app_nil_r.
